@@ -222,7 +222,8 @@ class _Ref:
             fields.append([name.lower(), raw])
         for f in fields:
             v = f[1].strip(b" \t")
-            if b"\x00" in v or b"\r" in v or b"\n" in v:
+            if any((c < 0x20 and c != 9) or c == 0x7F for c in v):
+                # RFC 9110 5.5: CR, LF, NUL must be refused or replaced by SP; other controls may be retained
                 self.lenient()
                 v = v.translate(_WS).strip(b" \t")
             f[1] = v
@@ -534,7 +535,8 @@ _CL = [b"Content-Length: 3", b"content-length:3", b"CONTENT-LENGTH:\t3\t ", b"Co
        b"Content-Length: 3\r\n 0", b"Content-Length:\r\n\t3", b"Content-Length : 3", b"Content-Length\t: 3",
        b" Content-Length: 3", b"Content-Length: 3\x00", b"Content-Length: 3\n", b"Content-Length: \x0b3",
        b"Content-Length: 3.0", b"Content-Length: \xd9\xa3", b"Content-Length: 3 3", b"Content_Length: 3",
-       b"Content-Length\x00: 3", b"X-Content-Length: 3", b"Content-Length: 1e1", b"Content-Length: 3;q=1"]
+       b"Content-Length\x00: 3", b"X-Content-Length: 3", b"Content-Length: 1e1", b"Content-Length: 3;q=1",
+       b"Content-Length: 1_0"]
 _TE = [b"Transfer-Encoding: chunked", b"transfer-encoding:CHUNKED", b"Transfer-Encoding:\tChunked ",
        b"Transfer-Encoding: identity", b"Transfer-Encoding: gzip", b"Transfer-Encoding: gzip, chunked",
        b"Transfer-Encoding: chunked, gzip", b"Transfer-Encoding: chunked, chunked", b"Transfer-Encoding: chunked,",
@@ -542,7 +544,8 @@ _TE = [b"Transfer-Encoding: chunked", b"transfer-encoding:CHUNKED", b"Transfer-E
        b"Transfer-Encoding: chunked;q=1", b"Transfer-Encoding:\r\n chunked", b"Transfer-Encoding: chu\r\n nked",
        b"Transfer-Encoding : chunked", b"Transfer-Encoding: chunked\x00", b"Transfer-Encoding: \x0bchunked",
        b'Transfer-Encoding: "chunked"', b"Transfer_Encoding: chunked", b"Transfer-Encoding: chunked\rX",
-       b"Transfer-Encoding: identity, chunked", b"Transfer-Encoding: chunked identity", b"TE: chunked"]
+       b"Transfer-Encoding: identity, chunked", b"Transfer-Encoding: chunked identity", b"TE: chunked",
+       b"Transfer-Encoding: chun\xe2\x84\xaaed"]
 _OTHER = [b"Host: h", b"X: y", b"X y", b": y", b"X\x7f: y", b"X: y\x00z", b"X: a\nContent-Length: 3",
           b"X: a\rTransfer-Encoding: chunked", b"X:", b"X: \x01\x7f\xff", b"Connection: close", b"\tfolded",
           b"Transfer-Encoding", b"Content-Length"]
@@ -563,7 +566,8 @@ class FramingHeaders(Bounded):
              "framing decision yields a different observable result; single field lines under every 2-way split, "
              "byte-at-a-time, application answering at once / only at the end; pairs and triples in one delivery "
              "(thorough: also byte-at-a-time and late answers, plus 30000 seeded random heads of 3-5 lines); "
-             "a 4401-digit Content-Length")
+             "every byte value 0..255 at 11 positions of a field line (inside/after the name, before/inside/after the "
+             "value, around Content-Length and Transfer-Encoding values); a 4401-digit Content-Length")
     functions = ["HTTPChannel.lineReceived", "HTTPChannel.headerReceived", "HTTPChannel._maybeChooseTransferDecoder",
                  "HTTPChannel._failChooseTransferDecoder", "HTTPChannel.allHeadersReceived",
                  "HTTPChannel.allContentReceived", "_IdentityTransferDecoder.dataReceived",
@@ -591,6 +595,12 @@ class FramingHeaders(Bounded):
         for hs in itertools.product(_CORE, repeat=3):
             for body in _BODIES:
                 yield (b"HTTP/1.1", hs, body, "one" if tier == "quick" else "fine")
+        for b in range(256):
+            c = bytes([b])
+            for h in (b"X" + c + b"Y: v", b"X" + c + b": v", b"X:" + c + b"v", b"X: v" + c + b"w", b"X: v" + c,
+                      c + b"Content-Length: 3", b"Content-Length" + c + b": 3", b"Content-Length:" + c + b"3",
+                      b"Content-Length: 3" + c, b"Transfer-Encoding: chunked" + c, b"Transfer-Encoding:" + c + b"chunked"):
+                yield (b"HTTP/1.1", (h,), _BODIES[1 if b"Content" in h else 0], "fine")
         yield (b"HTTP/1.1", (b"Content-Length: " + b"0" * 4400 + b"3",), _BODIES[1], "one")
         if tier != "quick":
             for _ in range(30000):
@@ -619,7 +629,7 @@ _SEEDS = [b"0\r\n\r\n", b"1\r\nZ\r\n0\r\n\r\n", b"2;x=y\r\nab\r\n0\r\nT: v\r\n\r
 _MUT = b"01ag;=\r\n \t\x00\x7f\"\\x+-"
 _MUT_SMALL = b"0a;\r\n "
 _CSLOTS = [
-    [b"1", b"01", b"1g", b"", b"0x1", b"-1", b"+1", b" 1", b"1 ", b"0", b"1\x00"],                 # first chunk size
+    [b"1", b"01", b"1g", b"", b"0x1", b"-1", b"+1", b" 1", b"1 ", b"0", b"1\x00", b"0_1", b"ffffffffffffffff1"],  # size
     [b"", b";", b";a", b";a=b", b';a="b c"', b';a="b\\"c"', b" ;a", b"; a", b";a\x00", b";a\nb", b";a\rb", b";\x7f",
      b";=", b";a=b;c", b";\xe9"],                                                                      # extension
     [b"\r\n", b"\n", b"\r", b"", b"\r\r\n"],                                                           # end of size line
@@ -649,7 +659,9 @@ class ChunkedBody(Bounded):
     scope = ("6 well-formed chunked bodies (extensions incl. quoted-pair, trailers, CRLF inside data, hex case, leading "
              "zeros) under every 2-way split and byte-at-a-time; every single-byte insertion/replacement (18-byte "
              "alphabet: hex digits, non-hex, ';', '=', CR, LF, SP, HTAB, NUL, DEL, quote, backslash, sign) and deletion at "
-             "every position of each; all double mutations of the two shortest (6-byte alphabet; thorough: 18); "
+             "every position of each; all double mutations of the two shortest (6-byte alphabet; thorough: 18); every "
+             "byte value 0..255 at 9 positions (before/after the size, in the extension, as chunk data, in both bytes "
+             "of the data terminator, in a trailer line, as trailer, in the final CRLF); "
              "slot grammar size x extension x line-end x data x data-end x last-chunk x trailers x final-CRLF, all "
              "pairs of slots around a valid body (thorough: all triples); each followed by a pipelined request; "
              "application answering at once and only at the end")
@@ -680,6 +692,13 @@ class ChunkedBody(Bounded):
             for m in mutations(seed, _MUT):
                 if fresh(m, "fine"):
                     yield (m, "fine")
+        for b in range(256):
+            c = bytes([b])
+            for body in (b"1" + c + b"\r\nZ\r\n0\r\n\r\n", c + b"1\r\nZ\r\n0\r\n\r\n", b"1;a" + c + b"b\r\nZ\r\n0\r\n\r\n",
+                         b"1\r\n" + c + b"\r\n0\r\n\r\n", b"1\r\nZ" + c + b"\n0\r\n\r\n", b"1\r\nZ\r" + c + b"0\r\n\r\n",
+                         b"0\r\nT: v" + c + b"\r\n\r\n", b"0\r\n" + c + b"\r\n", b"0\r\n\r" + c):
+                if fresh(body, "fine"):
+                    yield (body, "fine")
         for seed in _SEEDS[:2]:
             alpha = _MUT_SMALL if tier == "quick" else _MUT
             for m in mutations(seed, alpha):
@@ -805,7 +824,7 @@ _G_CLNAME = [b"Content-Length", b"content-length", b"CONTENT-LENGTH", b"cOnTeNt-
 _G_TENAME = [b"Transfer-Encoding", b"transfer-encoding", b"TRANSFER-ENCODING"]
 _G_OWS = [(b" ", b""), (b"", b""), (b"\t", b" "), (b"  ", b"\t\t")]
 _G_PAYLOAD = [b"", b"x", b"\r\n", b"0\r\n\r\n", b"GET / HTTP/1.1\r\nHost: h\r\n\r\n", bytes(range(256))]
-_G_CHUNKING = ["cl", "cl0pad", "one", "bytes", "ext", "trailer", "HEX"]
+_G_CHUNKING = ["cl", "cl0pad", "one", "bytes", "ext", "trailer", "HEX", "extq"]
 _G_EXTRA = [b"", b"Accept: */*\r\n", b"X-Empty:\r\n", b"X-Obs: \xe9\xff\r\nCookie: a=b; c=d\r\n"]
 
 
@@ -829,9 +848,9 @@ def build_request(method, target, version, name_i, ows, payload, chunking, extra
         size = (b"%X" if chunking == "HEX" else b"%x") % len(p)
         if chunking == "HEX":
             size = b"00" + size
-        ext = b';n;n=v;q="a b\\\\c"' if chunking == "ext" else b""
+        ext = {"ext": b';n;n=v;q="a b,\xe9"', "extq": b';q="a\\\\b\\"c"'}.get(chunking, b"")
         out += [size, ext, CRLF, p, CRLF]
-    out.append(b"0" + (b";last" if chunking == "ext" else b"") + CRLF)
+    out.append(b"0" + (b";last" if chunking in ("ext", "extq") else b"") + CRLF)
     if chunking == "trailer":
         out.append(b"X-T: 1\r\nX-U:\r\n")
     out.append(CRLF)
@@ -844,7 +863,8 @@ class WellFormedAgainstH11(Bounded):
              "by the reference (method, target, version, fields, body)")
     scope = ("4 methods (all tchar classes) x 5 targets (all four target forms, sub-delims) x 2 versions x 4 header-name "
              "cases x 4 OWS paddings x 6 payloads (empty, CRLF, a chunked terminator, a whole request, all 256 byte "
-             "values) x 7 body codings (Content-Length, zero-padded, one chunk, 1-byte chunks, extensions with quoted-pair, "
+             "values) x 8 body codings (Content-Length, zero-padded, one chunk, 1-byte chunks, extensions with token and "
+             "quoted-string values, extensions with quoted-pair, "
              "trailers, upper-case zero-padded hex) x 4 extra-field sets: all pairs of slots around a base request "
              "(thorough: all triples + seeded random full combinations), each followed by a second request; one "
              "delivery and byte-at-a-time")
@@ -855,7 +875,7 @@ class WellFormedAgainstH11(Bounded):
 
     def cases(self, tier, rng):
         # chunk extensions with a quoted-pair (backslash): reported finding, run last
-        late = self.SLOTS[6].index("ext")
+        late = self.SLOTS[6].index("extq")
         return late_last(self._cases(tier, rng), lambda pick: pick[6] == late)
 
     def _cases(self, tier, rng):
